@@ -29,20 +29,22 @@ ASSUMPTIONS = [
   "STL30.01: accepted as 30000/1001 drop-frame, 30000/1001 non-drop or exactly 30 fps (one reading per file); STL23.01: nominal-24 labels at 24000/1001",
   "ISO 6937 cells 24h, 7Fh, A0h, A4h, A6h, C0h, C9h, CCh, D8h-DBh, E5h, diacritic+space and diacritic+letter pairs outside the repertoire: any rendering accepted",
   "a control code may or may not render as one space cell; leading/trailing spaces of a row not judged; a run containing k real spaces must leave 1..run-length spaces",
+  "the run of spaces/control codes directly after a diacritic+space cell (whether that space still separates words) is not judged",
   "runs of newline codes: at least one break; blank rows not judged; attributes of space cells not judged",
   "open (non-teletext) subtitles: colour before any colour code and after a newline not judged; italics/underline after a newline may persist or reset",
   "boxing (0Ah/0Bh, 84h/85h): no effect on text presence judged; background after a boxing code not judged; mosaic/conceal/reserved codes: subtitle not judged",
   "green may be #00FF00 or #008000; JC = 0: alignment not judged; cumulative members may share one paragraph or be separate",
-  "vertical position: only displayAlign in {before, after}, region inside the safe area when VP..VP+rows-1 fits the documented row count, and strict vertical order of anchors for equal-shape subtitles with the same displayAlign; no exact coordinates, no double-height geometry",
+  "vertical position: only displayAlign in {before, after}, region inside the safe area when VP..VP+rows-1 fits the documented row count, and vertical order of anchors (a larger VP is never placed above a smaller one; two fitting VP >= 1 never coincide; VP 0 and 1 may) for equal-shape subtitles with the same displayAlign; no exact coordinates, no double-height geometry",
+  "files with a CS sequence other than 01 02* 03 (per set): only 'the reader does not crash' is judged (abstain:cs-irregular); a regular set whose first member precedes the programme start IS judged (remaining members at their own times)",
   "an unused-space code inside a non-final extension block: either per-block truncation or truncation after concatenation accepted",
   "extension blocks whose CS/TCI/TCO differ from the first block, invalid time-code labels, TCO < TCI, unknown DFC/CCT: not judged; differing VP/JC inside a chain: layout not judged",
   "observed text is compared raw and, for CCT 00 when that fails, after NFC normalisation (a decomposed rendering of a diacritic pair is accepted)",
-  "mech keys carry context tags naming irregular input features a violation may derive from: :cs-irregular (file has a CS sequence other than 01 02* 03), "
+  "mech keys carry context tags naming irregular input features a violation may derive from: "
   ":cum-after-dropped (an earlier member of a cumulative set is dropped by the programme start), :inner-filler (an unused-space code is followed by text), "
   ":mnr-invalid (max_row_count=MNR with a non-numeric GSI MNR), :diacritic-before-space (ISO 6937 diacritic followed by 20h); crash:<Type>:<site> keys belong mainly to C18",
 ]
 REQUIRED = ["files", "corpus:files", "table:files", "probe:isd", "cmp:chars", "cmp:attrs", "cmp:align", "cmp:region", "cmp:order-pairs",
-            "cmp:sigtimes", "feat:ext-chain", "feat:cumulative", "feat:comment", "feat:userdata", "feat:dropped-before-start",
+            "cmp:sigtimes", "feat:ext-chain", "feat:cumulative", "feat:comment", "feat:userdata", "feat:dropped-before-start", "feat:cum-member-after-dropped-first",
             "feat:diacritic-pair", "feat:control", "feat:newline", "feat:space-run",
             "dfc:STL25.01", "dfc:STL30.01", "dfc:STL24.01", "dfc:STL50.01", "dfc:STL23.01",
             "cct:00", "cct:01", "cct:02", "cct:03", "cct:04", "dsc:teletext", "dsc:open",
@@ -375,9 +377,7 @@ class FileCheck:
     subs = [sub] if sub is not None else []
     if key:
       subs = [self.rf.subs[i] for i in key]
-    # file-level contexts (ttconv appends such subtitles to an earlier paragraph, which also changes that paragraph)
-    if any(s.cs_irregular for s in self.rf.subs):
-      mech += ":cs-irregular"
+    # file-level contexts
     if self.cum_after_dropped:
       mech += ":cum-after-dropped"
     if not self.rf.teletext and self.cfg.get("max_row_count") == "MNR" and self.rf.mnr() is None:
@@ -795,7 +795,8 @@ def order_check(fc: FileCheck, doc, interp):
       continue
     fc.ctx.count("cmp:order-pairs")
     lo, hi = ((a, ya), (b, yb)) if a.vp < b.vp else ((b, yb), (a, ya))
-    if not lo[1] < hi[1]:
+    # rows 1..R are distinct rows in teletext and open numbering alike: strict; row 0 vs row 1 (0- or 1-based) may coincide
+    if lo[1] > hi[1] or (lo[0].vp >= 1 and lo[1] == hi[1]):
       fc.v("region:vertical-order", f"subtitles SN={lo[0].sn} (VP={lo[0].vp}) and SN={hi[0].sn} (VP={hi[0].vp}), {na} rows, displayAlign {da}: "
            f"anchors {float(lo[1]):.4f} % and {float(hi[1]):.4f} % do not keep the vertical order")
 
@@ -819,6 +820,14 @@ def check_file(ctx, data: bytes, cfg: dict, source: str):
                  f"(GSI TCP={rf.gsi['TCP']!r} MNR={rf.gsi['MNR']!r}, first CS={[s.cs for s in rf.subs][:4]})")]
   if not rf.dfc_known or not rf.cct_known:
     ctx.count("abstain:unknown-dfc-or-cct")
+    return fc, []
+  if any(s.cs_irregular for s in rf.subs):
+    # CS sequences other than 01 02* 03 are outside what the statement defines: only the no-crash clause is judged
+    ctx.count("abstain:cs-irregular")
+    try:
+      list(ISD.significant_times(doc))
+    except Exception as e:  # pylint: disable=broad-except
+      return fc, [(f"crash:{type(e).__name__}:{_site(e)}", f"ISD.significant_times raised {type(e).__name__}: {e}")]
     return fc, []
   try:
     sig_list = list(ISD.significant_times(doc))
@@ -855,7 +864,15 @@ def _features(ctx, fc: FileCheck, cfg):
   m = cfg.get("max_row_count")
   ctx.count("cfg:rows:" + ("None" if m is None else ("MNR" if m == "MNR" else "int")))
   nontrivial = False
+  judged = not any(s.cs_irregular for s in rf.subs)
   timing = rf.timing(st, rf.interps[0]) if rf.dfc_known else [("unjudged", "")] * len(rf.subs)
+  dropped_sets = set()
+  for s, tm in zip(rf.subs, timing):
+    if s.cum_set is not None and judged:
+      if s.cum_set in dropped_sets and tm[0] == "ok":
+        ctx.count("feat:cum-member-after-dropped-first")
+      if tm[0] == "dropped":
+        dropped_sets.add(s.cum_set)
   if rf.n_userdata:
     ctx.count("feat:userdata")
   for s, tm in zip(rf.subs, timing):
@@ -881,7 +898,7 @@ def _features(ctx, fc: FileCheck, cfg):
     if tm[0] == "ok" and tm[2] > tm[1] and not s.comment and fc.sub_rows[s.index]:
       if fl["control"] or fl["newline"] or fl["nonascii"]:
         nontrivial = True
-  return nontrivial
+  return nontrivial and judged
 
 
 def evaluate(ctx, data, cfg, source):
